@@ -174,3 +174,22 @@ func (a *Announce) VerifNDPGroups(idx int) string {
 	sort.Strings(gs)
 	return strings.Join(gs, ",")
 }
+
+// VerifShrinkSpamQueue replaces the queue of gratuitous-announcement requests by one of capacity n (same type, same
+// producer code): "the queue is full" then needs n+1 requests instead of 1025.
+func (a *Announce) VerifShrinkSpamQueue(n int) { a.spamCh = make(chan IPAdvertisement, n) }
+
+func (a *Announce) VerifSpamQueued() int { return len(a.spamCh) }
+
+// VerifTakeSpam receives one request from the queue (blocking if asked to, as the spam loop does).
+func (a *Announce) VerifTakeSpam(block bool) (IPAdvertisement, bool) {
+	if block {
+		return <-a.spamCh, true
+	}
+	select {
+	case adv := <-a.spamCh:
+		return adv, true
+	default:
+		return IPAdvertisement{}, false
+	}
+}
